@@ -27,6 +27,8 @@ type c17bCase struct {
 	Queue    int    `json:"queue"`
 	FlushMS  int    `json:"flush_ms"`
 	RunSec   int    `json:"run_sec"` // virtual seconds before the context is cancelled
+	// LookupTimeoutMS is the per-attempt region lookup time-out for the hang scenarios
+	LookupTimeoutMS int `json:"lookup_timeout_ms,omitempty"`
 }
 
 // scheduleGaps returns the minimal waits before retry 1, 2, 3...
@@ -43,6 +45,9 @@ func scheduleGaps(n int) []time.Duration {
 func c17bRun(c c17bCase) Outcome {
 	var o Outcome
 	res := inBubble(theT, func() { o = c17bRunInBubble(c) })
+	if o, stuck := stuckVerdict(res); stuck {
+		return o
+	}
 	if res.Panic != "" {
 		return viol("panic@"+topFrame(res.Stack), "%s\n%s", res.Panic, res.Stack)
 	}
@@ -88,8 +93,20 @@ func c17bRunInBubble(c c17bCase) (out Outcome) {
 		for k := 0; k < forever; k++ {
 			cl.ZKErrs = append(cl.ZKErrs, errors.New("zk: could not connect to a server"))
 		}
+	case "zk-hang":
+		cl.ZKHold = true // every lookup attempt hangs until its own time-out
+	case "meta-hang":
+		cl.MetaHold = true
 	}
-	client := newSimClient(cl, gohbase.RpcQueueSize(c.Queue), gohbase.FlushInterval(time.Duration(c.FlushMS)*time.Millisecond))
+	lookupTimeout := 30 * time.Second
+	if c.Scenario == "zk-hang" || c.Scenario == "meta-hang" {
+		lookupTimeout = time.Duration(c.LookupTimeoutMS) * time.Millisecond
+	}
+	client := newSimClient(cl, gohbase.RpcQueueSize(c.Queue), gohbase.FlushInterval(time.Duration(c.FlushMS)*time.Millisecond),
+		gohbase.RegionLookupTimeout(lookupTimeout),
+		// (no read time-out in the way: a held meta scan must only be given up by the
+		// lookup attempt's own time-out, not failed over by the connection)
+		gohbase.RegionReadTimeout(24*time.Hour))
 	ctx, cancel := context.WithCancel(context.Background())
 	defer cancel()
 	var err error
@@ -152,7 +169,8 @@ func c17bRunInBubble(c c17bCase) (out Outcome) {
 	}
 	// collect the attempt times that matter for the scenario
 	var times []time.Duration
-	free := 0 // retries that may come without a wait
+	free := 0                // retries that may come without a wait
+	hang := time.Duration(0) // time each attempt itself takes before it fails
 	what := ""
 	switch c.Scenario {
 	case "retry-class":
@@ -195,6 +213,18 @@ func c17bRunInBubble(c c17bCase) (out Outcome) {
 	case "zk-error":
 		what = "ZooKeeper lookups"
 		times = zkTimes
+	case "zk-hang":
+		what = "ZooKeeper lookups (each hanging until the lookup time-out)"
+		times = zkTimes
+		hang = time.Duration(c.LookupTimeoutMS) * time.Millisecond
+	case "meta-hang":
+		what = "hbase:meta scans (each hanging until the lookup time-out)"
+		for _, e := range execs {
+			if e.Method == "MetaScanArrived" {
+				times = append(times, e.T)
+			}
+		}
+		hang = time.Duration(c.LookupTimeoutMS) * time.Millisecond
 	}
 	// drop what happened after the cancellation
 	var kept []time.Duration
@@ -215,15 +245,15 @@ func c17bRunInBubble(c c17bCase) (out Outcome) {
 		if k < 0 {
 			continue
 		}
-		if gap < gaps[k] {
-			return viol("retry-too-fast@"+c.Scenario, "%s: retry %d came %v after the previous attempt, the schedule requires >= %v (attempt times %v)", what, i, gap, gaps[k], head(times, 12))
+		if gap < gaps[k]+hang {
+			return viol("retry-too-fast@"+c.Scenario, "%s: retry %d came %v after the previous attempt, the schedule requires >= %v (attempt times %v)", what, i, gap, gaps[k]+hang, head(times, 12))
 		}
 	}
 	// the rate is bounded: within the run there cannot be more attempts than the schedule allows
 	maxAttempts := 1 + free
 	total := time.Duration(0)
 	for _, g := range scheduleGaps(64) {
-		total += g
+		total += g + hang
 		if total > time.Duration(c.RunSec)*time.Second {
 			break
 		}
@@ -258,12 +288,13 @@ func TestC17_RetrySchedule(t *testing.T) {
 			"within 100 virtual ms of its cancellation. Non-trivial = >= 4 consecutive attempts observed; distinct by case hash")
 	Drive(t, rec, true, func(t *rapid.T) c17bCase {
 		c := c17bCase{
-			Scenario: rapid.SampledFrom([]string{"retry-class", "retry-class", "conn-drop", "dial-fail", "probe-fail", "meta-down", "zk-error"}).Draw(t, "scenario"),
-			Batch:    rapid.SampledFrom([]int{0, 0, 1, 2, 3}).Draw(t, "batch"),
-			Key:      evid.B(rapid.SampledFrom([]string{"a", "m", "z", ""}).Draw(t, "key")),
-			Queue:    rapid.SampledFrom([]int{1, 2, 100}).Draw(t, "queue"),
-			FlushMS:  rapid.SampledFrom([]int{0, 1, 20}).Draw(t, "flush"),
-			RunSec:   rapid.SampledFrom([]int{5, 20, 60, 300}).Draw(t, "run"),
+			Scenario:        rapid.SampledFrom([]string{"retry-class", "retry-class", "conn-drop", "dial-fail", "probe-fail", "meta-down", "zk-error", "zk-hang", "meta-hang"}).Draw(t, "scenario"),
+			LookupTimeoutMS: rapid.SampledFrom([]int{20, 200, 1000, 30000}).Draw(t, "lookuptimeout"),
+			Batch:           rapid.SampledFrom([]int{0, 0, 1, 2, 3}).Draw(t, "batch"),
+			Key:             evid.B(rapid.SampledFrom([]string{"a", "m", "z", ""}).Draw(t, "key")),
+			Queue:           rapid.SampledFrom([]int{1, 2, 100}).Draw(t, "queue"),
+			FlushMS:         rapid.SampledFrom([]int{0, 1, 20}).Draw(t, "flush"),
+			RunSec:          rapid.SampledFrom([]int{5, 20, 60, 300}).Draw(t, "run"),
 		}
 		switch c.Scenario {
 		case "retry-class":
